@@ -19,7 +19,7 @@ TERMINAL = [OK, DATA_OK, ERR, HOLD, HEX_OK, HEX_ERR, LIST, 9, -7]
 RULE = ("Enumerated: every effective return-code sequence (k x {NEXT, DATA_NEXT} then one of OK, DATA_OK, ERROR, HOLD, HOLD_EXIT_OK, "
         "HOLD_EXIT_ERROR, PRINT_CMD_LIST_OK, 9, -7) up to length 6 (quick) / 9 (thorough) for the read, test, write and run handler in "
         "the command state machine and the read and test handler in the unsolicited one (HOLD only in the command FSM, released at "
-        "once), two buffer-edit patterns (keep/replace/append) per sequence, a variable poked between iterations so that re-formatting "
+        "once), two buffer-edit patterns (keep/replace/append) per sequence and, up to length 4, a third in which the handler reports the full capacity or zero as *data_size while leaving the text, a variable poked between iterations so that re-formatting "
         "is observable; this sub-sweep is exhaustive for that space. Generated (Hypothesis): longer sequences, 0-3 variables of all types, "
         "variable read/write callbacks failing at each position, both FSMs, small command-list tables. Non-trivial = sequence length >= 2, or a "
         "buffer edit followed by a re-invocation, or a variable-callback failure at position >= 1; distinct by case hash.")
@@ -50,7 +50,9 @@ def enum_case(kind, fsm, seq, pattern):
     steps = []
     for j, code in enumerate(seq):
         e = (j + pattern) % 3
-        st = S.mk_step(code, e if kind in "rt" else 0, EDIT_TAGS[e] if kind in "rt" else b"")
+        if pattern == 2:
+            e = (3, 4, 1)[j % 3]      # handler reports the full capacity / zero as the length, text untouched
+        st = S.mk_step(code, e if kind in "rt" else 0, EDIT_TAGS[e % 3] if kind in "rt" else b"")
         if kind in "rt" and j % 2 == pattern % 2:
             st["act"], st["a1"], st["a2"], st["a3"] = S.WA_POKE, 0, 0, bytes([(7 + 3 * j) & 0x7F])
         steps.append(st)
@@ -74,8 +76,10 @@ def _enum(maxlen):
                 for term in TERMINAL:
                     if term == HOLD and fsm == 1:
                         continue
-                    for pattern in (0, 1):
-                        if kind in "wn" and pattern == 1:
+                    for pattern in (0, 1, 2):
+                        if kind in "wn" and pattern >= 1:
+                            continue
+                        if pattern == 2 and L > 4:
                             continue
                         yield enum_case(kind, fsm, list(pre) + [term], pattern)
 
@@ -104,7 +108,7 @@ def gen(d, tier):
     seq = [d.pick(codes_mid) for _ in range(L - 1)] + [d.pick([t for t in TERMINAL if not (t == HOLD and fsm == 1)])]
     steps = []
     for j, code in enumerate(seq):
-        st = S.mk_step(code, d.below(3) if kind in "rt" else 0, d.pick(G.TAGS) if kind in "rt" else b"")
+        st = S.mk_step(code, d.weighted([(3, 0), (3, 1), (3, 2), (1, 3), (1, 4)]) if kind in "rt" else 0, d.pick(G.TAGS) if kind in "rt" else b"")
         if vs and d.chance(1, 3):
             k = d.below(len(vs))
             pv = d.bytes(vs[k]["size"])
